@@ -31,6 +31,8 @@ RULE = ("cases = (output protocol in {xml,soap11,soap12,json,yaml,msgpack,msgpac
         "non-ASCII message or non-empty detail or non-Fault exception; distinct = hash of "
         "(protocol, transport, fault class, code shape, message class, detail shape)")
 ASSUMPTIONS = [
+    "the spyne client leg compares messages modulo surrounding whitespace (its SOAP fault readers "
+    "strip the text); a whitespace-only message may arrive as the default message (class name)",
     "HttpRpc's documented fault body 'code\\n\\nmessage' has no detail slot: detail is not "
     "compared there",
     "SOAP 1.2 has a closed top-level vocabulary: only Client/Server first segments are generated",
@@ -432,7 +434,12 @@ def run_case(case, rec):
             if ccode != want[0]:
                 fails.append(("C09|client-code-differs|%s|%s" % (prot, _code_shape(want[0])),
                               "%s: raised code %r, the spyne client sees %r" % (where, want[0], cerr.faultcode)))
-            if (cerr.faultstring or "").strip() != (want[1] or "").strip():
+            # the SOAP fault readers strip the text (tolerant of pretty-printed documents);
+            # a whitespace-only message then is an empty one, which Fault() replaces by the
+            # class name at construction
+            wmsg = (want[1] or "").strip()
+            if (cerr.faultstring or "").strip() != wmsg and not (
+                    wmsg == "" and cerr.faultstring == type(cerr).__name__):
                 fails.append(("C09|client-message-differs|%s|%s" % (prot, _msg_class(want[1])),
                               "%s: raised message %r, the spyne client sees %r" % (where, want[1], cerr.faultstring)))
             if raised["kind"] == "exc":
@@ -486,7 +493,7 @@ def _detail_shape(d):
 
 
 def shards(tier):
-    n = 500 if tier == "quick" else 12000
+    n = 2500 if tier == "quick" else 40000
     return [{"kind": "hyp", "i": i, "n": n} for i in range(16)]
 
 
